@@ -38,7 +38,7 @@ fn ops_subs() -> Ops {
 }
 
 fn wp(name: &str, specs: Vec<Spec>, observable: Vec<usize>, pinned: Vec<usize>, max_obs: usize, len: usize, ops: Ops, mon: Monitors) -> Box<dyn Scenario> {
-    Box::new(WorldScn(WorldCfg { name: name.to_string(), specs, late_specs: vec![], observable, pinned, max_obs, max_subs: 2, len, ops, mon }))
+    Box::new(WorldScn(WorldCfg { name: name.to_string(), specs, late_specs: vec![], observable, pinned, max_obs, max_subs: 2, observe_at_start: vec![], cut_nodes: vec![], len, ops, mon }))
 }
 
 /// binds whose closures build nodes over outer nodes; the bind itself stays observed
@@ -73,7 +73,7 @@ pub fn bind_templates(prefix: &str, l: usize, ops: Ops, mon: Monitors) -> Vec<Bo
 }
 
 fn w(name: &str, specs: Vec<Spec>, observable: Vec<usize>, max_obs: usize, len: usize, ops: Ops, mon: Monitors) -> Box<dyn Scenario> {
-    Box::new(WorldScn(WorldCfg { name: name.to_string(), specs, late_specs: vec![], observable, pinned: vec![], max_obs, max_subs: 2, len, ops, mon }))
+    Box::new(WorldScn(WorldCfg { name: name.to_string(), specs, late_specs: vec![], observable, pinned: vec![], max_obs, max_subs: 2, observe_at_start: vec![], cut_nodes: vec![], len, ops, mon }))
 }
 
 /// The graph templates shared by the value-carrying properties. `l` = history length.
@@ -120,6 +120,59 @@ pub fn scenarios(prop: &str, tier: Tier) -> Vec<Box<dyn Scenario>> {
         "C03" => {
             let ops = Ops { write: true, observe: true, observe_smuggled: true, drop_obs: true, subscribe: true, subscribe_smuggled_only: true, ..Ops::default() };
             bind_templates("C03", if q { 6 } else { 8 }, ops, Monitors { c03: true, ..Monitors::default() })
+        }
+        "C04" => {
+            use Spec::*;
+            let l = if q { 5 } else { 7 };
+            let mon = Monitors { c04: true, ..Monitors::default() };
+            let ops = Ops { write: true, observe: true, drop_obs: true, disallow: true, subscribe: true, unsubscribe: true, drop_handle: true, ..Ops::default() };
+            let mut v = graph_templates("C04", l, ops.clone(), mon.clone());
+            let bops = Ops { write: true, observe: true, observe_smuggled: true, drop_obs: true, disallow: true, drop_handle: true, ..Ops::default() };
+            v.extend(bind_templates("C04b", l, bops.clone(), mon.clone()));
+            // a closure that creates and drops a node, under a bind whose input grows taller
+            v.push(wp(
+                "C04b/garbage_in_closure_height_adjust",
+                vec![Var, Var, Map(1), Map(2), Bind { lhs: 0, then: Rhs::Node(1), els: Rhs::Node(3) }, Bind { lhs: 4, then: Rhs::FreshGarbage(1), els: Rhs::Node(1) }],
+                vec![4],
+                vec![5],
+                1,
+                l,
+                Ops { write: true, observe: true, drop_obs: true, ..Ops::default() },
+                mon.clone(),
+            ));
+            // nodes created after the graph has been stabilised
+            v.push(Box::new(WorldScn(WorldCfg {
+                name: "C04/late_nodes".into(),
+                specs: vec![Var, Map(0)],
+                late_specs: vec![Map2(0, 1), Bind { lhs: 1, then: Rhs::Node(0), els: Rhs::FreshMap(1) }],
+                observable: vec![1, 2, 3],
+                pinned: vec![],
+                max_obs: 2,
+                max_subs: 1,
+                observe_at_start: vec![],
+                cut_nodes: vec![],
+                len: l,
+                ops: ops.clone(),
+                mon,
+            })));
+            v
+        }
+        "C06" => {
+            use Spec::*;
+            let l = if q { 5 } else { 7 };
+            let mon = Monitors { c06: true, ..Monitors::default() };
+            let ops = Ops { write: true, write_same: true, observe: true, drop_obs: true, ..Ops::default() };
+            let c = |name: &str, specs: Vec<Spec>, start: Vec<usize>, cut: Vec<usize>, observable: Vec<usize>, len: usize| -> Box<dyn Scenario> {
+                Box::new(WorldScn(WorldCfg { name: format!("C06/{name}"), specs, late_specs: vec![], observable, pinned: vec![], max_obs: 1, max_subs: 0, observe_at_start: start, cut_nodes: cut, len, ops: ops.clone(), mon: mon.clone() }))
+            };
+            vec![
+                c("chain", vec![Var, Map(0), Map(1), Map(2)], vec![3], vec![0, 1, 2], vec![1], l),
+                c("diamond", vec![Var, Map(0), Map(0), Map2(1, 2)], vec![3], vec![1, 2], vec![1], l),
+                c("two_vars_fold", vec![Var, Var, Map(0), Fold(vec![2, 1, 2])], vec![3], vec![0, 2], vec![], l),
+                c("mapref", vec![PVar, Fst(0), Map(1), PMap(0), Map2(2, 3)], vec![4], vec![1, 3], vec![], l),
+                c("withold_refid_map3", vec![Var, Var, MapWithOld(0), RefId(1), Map3(3, 2, 0)], vec![4], vec![1, 3], vec![], l),
+                c("mapref_over_withold", vec![Var, MapWithOld(0), RefId(1), Map(2)], vec![3], vec![2], vec![], l),
+            ]
         }
         "C09" => graph_templates("C09", if q { 6 } else { 7 }, ops_subs(), Monitors { c09: true, ..Monitors::default() }),
         "C10" => {
@@ -205,6 +258,32 @@ pub fn meta(prop: &str, tier: Tier) -> PropMeta {
             assumptions: common_assume,
             rule: "as C01; the monitor requires, per invocation of a scope-created node's function, that the lhs value its closure captured equals the lhs value of the running stabilise (validity query), and checks observers/subscribers of scope-created nodes against the closure generation",
             must_cover: vec!["scope-created-node-ran", "observer-on-invalidated-scope-node"],
+        },
+        "C04" => PropMeta {
+            level: "other",
+            functions: engine,
+            bounds: format!("9 graph templates + 5 bind templates + closure-garbage/height-adjust template + late-node template, histories of {} actions from {{write, observe (also scope-created nodes), drop/disallow observer, subscribe, unsubscribe, drop node handle, create node, stabilise}}, run under BOTH build profiles (debug assertions on and off); every action and the final drop of all handles and the state run under catch_unwind", l(5, 7)),
+            outside: common_outside,
+            assumptions: common_assume,
+            rule: "as C01",
+            must_cover: vec!["node-created-and-dropped-inside-bind-closure"],
+        },
+        "C06" => PropMeta {
+            level: "other",
+            functions: {
+                let mut e = engine;
+                e.push("incremental::Incr::{set_cutoff, set_cutoff_fn_boxed}, Cutoff::{Always, Never, PartialEq, Fn, FnBoxed}, ErasedCutoff::should_cutoff, MapRef child_changed");
+                e
+            },
+            bounds: format!("5 templates (chain, diamond, fold with duplicate input, map_ref over a pair var, map_with_old/identity map_ref/map3) kept necessary by a permanent observer; the cutoff kind of 2-3 designated nodes (vars included) is a symbolic choice among {{default, Never, Always, fn, boxed closure}} (fn/boxed answer with an uninterpreted predicate q_k(old,new) and log their arguments); every history of {} actions from {{write fresh value, write the same value again, extra observer, drop it, stabilise}}; reference = per-node 'last result' model run next to the engine", l(5, 7)),
+            outside: {
+                let mut o = common_outside;
+                o.push("cutoffs on bind and depend_on nodes; expert nodes; periods in which a node is unnecessary (covered for values by C01)");
+                o
+            },
+            assumptions: common_assume,
+            rule: "as C01",
+            must_cover: vec!["cutoff-suppressed", "cutoff-did-not-suppress", "always-cutoff-after-first-result", "write-same-value-again"],
         },
         "C09" => PropMeta {
             level: "other",
